@@ -109,10 +109,23 @@ type held struct {
 type stats map[string]int
 
 // runCase executes one history with the C14 monitors; returns the Coq case (or ""), the first failure and counts.
-func runCase(cs poolsim.Case) (string, *failure, stats, *poolsim.Runner) {
+func runCase(cs poolsim.Case) (coqOut string, failOut *failure, stOut stats, rOut *poolsim.Runner) {
 	t := cs.Tree()
 	w := poolsim.NewWorld(t)
 	var fail *failure
+	defer func() {
+		// a pool (or a mined block sharing its memory) corrupted through a returned value makes the
+		// generator's own invariants fail: that is a failure of the property, with this history as replay
+		if p := recover(); p != nil {
+			coqOut, failOut = "", &failure{"c14-state-corrupted", fmt.Sprint("the history broke an invariant of the harness (memory shared with the pool was modified?): ", p)}
+			if stOut == nil {
+				stOut = stats{}
+			}
+			if rOut == nil {
+				rOut = poolsim.NewRunner(w, func(string, string) {})
+			}
+		}
+	}()
 	report := func(kind, detail string) {
 		if fail == nil {
 			fail = &failure{kind, detail}
@@ -490,7 +503,20 @@ func run(c *hx.Ctx) {
 	for i := 0; i < n; i++ {
 		g := c.R.Fork()
 		cs := poolsim.Case{Seed: g.U64(), Regime: []int{1, 2, 0, 1, 2, 1}[i%6], Opts: chaingen.GenOpts{Blocks: 4 + g.Intn(9), Branchiness: 2 + g.Intn(4), TxPerBlock: g.Intn(3), Jitter: g.Intn(3)}}
-		t := cs.Tree()
+		var t *chaingen.Tree
+		func() {
+			defer func() {
+				if p := recover(); p != nil {
+					// blocks built from the lists the manager returned no longer replay: they share memory with the pool
+					res.Fail("c14-generated-chain-corrupted", fmt.Sprint("building the fork tree with the chain generator (blocks mined from PoolTransactions/V2PoolTransactions on a linear node) failed: ", p), map[string]any{"case": cs})
+					t = nil
+				}
+			}()
+			t = cs.Tree()
+		}()
+		if t == nil {
+			continue
+		}
 		cs.Plan = poolsim.GenPlan(rng.New(cs.Seed^0x1234abcd), t, poolsim.Flavors, 3)
 		doCase(cs)
 	}
